@@ -22,6 +22,44 @@ import (
 	"golang.org/x/tools/go/ssa"
 )
 
+// usesFact: the contract of the function under verification opts in to a family of assumed heap facts (`uses NAME, ...`):
+//
+//	entryclosure  heap closure of the ENTRY state, as ground instances at the pointer loads / map lookups / map range
+//	              steps the code performs: a pointer the entry heap holds at a pre-existing address points to a
+//	              pre-existing object (needed to separate `x[i] == old(x[i])` from objects the function allocates)
+//	blockframe    whole-block consequences of the frame condition at loop heads (frameBlockCond) and the window frame of
+//	              copy() for seq() abstractions (calls.go)
+//
+// Both are true in every execution; they are opt-in only because every extra quantified fact costs solver time in
+// functions that do not need it.
+func (fc *FnCtx) usesFact(name string) bool {
+	if fc.root == nil {
+		return false
+	}
+	spec := fc.eng.specFor(fc.root)
+	return spec != nil && spec.Uses[name]
+}
+
+// usesVisited: the ghost visited-set model of map ranges is active for the function under verification iff one of its
+// loop invariants mentions visited(...). Other functions keep the plain model (an arbitrary present key per iteration).
+func (fc *FnCtx) usesVisited() bool {
+	if fc.root == nil {
+		return false
+	}
+	spec := fc.eng.specFor(fc.root)
+	if spec == nil {
+		return false
+	}
+	for _, cls := range spec.LoopInv {
+		for _, cl := range cls {
+			if strings.Contains(cl.Text, "visited(") {
+				return true
+			}
+		}
+	}
+	return false
+}
+
 // ---------- 1. uninterp ... reads ----------
 
 // splitReads splits the tail of an `uninterp` header "R reads T1, T2" into the result type and the read list.
@@ -45,6 +83,24 @@ func splitReads(tail string) (string, []string) {
 func (e *SpecEnv) readsArgs(sf *SpecFn, n *SpecEnv) (sorts, terms []string) {
 	fc := e.fc
 	for _, name := range sf.Reads {
+		if strings.HasSuffix(name, "[..]") {
+			// `reads p[..]`: only the element block of the slice parameter p (finer than the whole component of its element
+			// type: blocks allocated later by the caller do not disturb the value of the function)
+			x, err := parseExpr(name[:len(name)-4])
+			if err != nil {
+				e.fail("uninterp %s: reads %s: %v", sf.Name, name, err)
+			}
+			v := n.eval(x)
+			sl, ok := types.Unalias(v.typ).Underlying().(*types.Slice)
+			if !ok || !isLeaf(sl.Elem()) {
+				e.fail("uninterp %s: `reads %s` needs a slice of leaf elements", sf.Name, name)
+			}
+			bk, bs := fc.bKey(sl.Elem())
+			fc.registerComp(bk, bs)
+			sorts = append(sorts, "(Array Int "+fc.tc.sortOf(sl.Elem())+")")
+			terms = append(terms, app("select", fc.comp(e.cur, bk, bs), sarr(v.t)))
+			continue
+		}
 		t := n.resolveType(name)
 		if a, ok := isArrayT(t); ok {
 			t = a.Elem()
@@ -60,6 +116,84 @@ func (e *SpecEnv) readsArgs(sf *SpecFn, n *SpecEnv) (sorts, terms []string) {
 		terms = append(terms, fc.comp(e.cur, ck, cs), fc.comp(e.cur, bk, bs))
 	}
 	return
+}
+
+// canonTypeString: types.TypeString with the predeclared aliases resolved (byte -> uint8, rune -> int32), so that a map
+// type written `map[int]*[32]byte` in the source and the same type built from a spec binder name the same heap component.
+func canonTypeString(t types.Type) string {
+	switch u := types.Unalias(t).(type) {
+	case *types.Basic:
+		if int(u.Kind()) < len(types.Typ) && types.Typ[u.Kind()] != nil {
+			return types.Typ[u.Kind()].Name()
+		}
+		return u.Name()
+	case *types.Pointer:
+		return "*" + canonTypeString(u.Elem())
+	case *types.Slice:
+		return "[]" + canonTypeString(u.Elem())
+	case *types.Array:
+		return fmt.Sprintf("[%d]%s", u.Len(), canonTypeString(u.Elem()))
+	case *types.Map:
+		return "map[" + canonTypeString(u.Key()) + "]" + canonTypeString(u.Elem())
+	}
+	return types.TypeString(t, nil)
+}
+
+// seqpartBuiltin: seqpart(a, off, n) == seq of the window [off, off+n) of the byte array value / byte slice a, the same
+// abstraction as seq() (uninterpreted function of block, offset, length): seqpart(a, 0, len(a)) is seq(a).
+func (e *SpecEnv) seqpartBuiltin(x *ECall) SV {
+	fc := e.fc
+	if len(x.Args) != 3 {
+		e.fail("seqpart(a, off, n)")
+	}
+	v, off, n := e.eval(x.Args[0]), e.eval(x.Args[1]), e.eval(x.Args[2])
+	var parts []string
+	switch u := types.Unalias(v.typ).Underlying().(type) {
+	case *types.Slice:
+		if !isByteT(u.Elem()) {
+			e.fail("seqpart of %s", v.typ)
+		}
+		k, s := fc.bKey(u.Elem())
+		parts = []string{app("select", fc.comp(e.cur, k, s), sarr(v.t)), plus(soff(v.t), off.t), n.t}
+	case *types.Array:
+		if !isByteT(u.Elem()) {
+			e.fail("seqpart of %s", v.typ)
+		}
+		parts = []string{v.t, off.t, n.t}
+	default:
+		e.fail("seqpart of %s", v.typ)
+	}
+	fc.eng.declareUF(fc, "bseq", []string{"(Array Int Int)", "Int", "Int"}, "Int")
+	return SV{t: app("bseq", parts...), typ: mathInt}
+}
+
+// frameBlockCond: for a block component K (arrays / slice backing arrays) the frame condition FrameOK_K says that every
+// CELL (p, i) outside the modifies clause is unchanged. By array extensionality a block p none of whose cells is named by
+// the modifies clause is then unchanged AS A WHOLE: (select h p) == (select h0 p). That consequence is what abstractions of
+// whole byte strings (seq, kvval, ...) need; it is only ever ASSUMED together with FrameOK_K (loop heads), never checked.
+func (fr *Frame) frameBlockCond(key, h string) string {
+	if !fr.fc.usesFact("blockframe") {
+		return ""
+	}
+	fi := fr.frame
+	if fi == nil || fi.all || !strings.HasPrefix(key, "B|") {
+		return ""
+	}
+	h0 := compInit(key)
+	if h == h0 {
+		return ""
+	}
+	var ex []string
+	for _, c := range fi.cells {
+		if c.key == key && c.isB {
+			if c.pc == "" {
+				return "" // no block-level over-approximation of this cell: skip the derived fact
+			}
+			ex = append(ex, c.pc)
+		}
+	}
+	old := and(app("<", app("root", "p"), fi.w0), app(">=", app("root", "p"), "0"))
+	return fmt.Sprintf("(forall ((p Ptr)) (! (=> (and %s (not %s)) (= (select %s p) (select %s p))) :pattern ((select %s p))))", old, or(ex...), h, h0, h)
 }
 
 // ---------- 3. map range with a ghost visited set ----------
@@ -99,6 +233,9 @@ func (fr *Frame) visComp(r *ssa.Range, mt *types.Map) (key, sort string) {
 // function (which get a safe:maprange obligation): no call that may write such a map, no dynamic call, no goroutine.
 func (fr *Frame) mapRangeSafe(li *loopInfo, mt *types.Map) (bool, string) {
 	eng := fr.fc.eng
+	if !fr.fc.usesVisited() {
+		return false, "no invariant of the function mentions visited(...)"
+	}
 	for b := range li.body {
 		for _, in := range b.Instrs {
 			switch x := in.(type) {
@@ -150,7 +287,7 @@ func (fr *Frame) mapRangeSafe(li *loopInfo, mt *types.Map) (bool, string) {
 
 func (fr *Frame) mapRangeInit(x *ssa.Range, st *State) {
 	mt, ok := x.X.Type().Underlying().(*types.Map)
-	if !ok {
+	if !ok || !fr.fc.usesVisited() {
 		return
 	}
 	k, s := fr.visComp(x, mt)
@@ -163,7 +300,7 @@ func (fr *Frame) mapRangeNext(x *ssa.Next, rng SV, mt *types.Map, st *State, g s
 	tc := fc.tc
 	r, _ := mapRangeOfNext(x)
 	li := fr.loops[x.Block()]
-	if r == nil || li == nil {
+	if r == nil || li == nil || !fc.usesVisited() {
 		return false
 	}
 	if ok, why := fr.mapRangeSafe(li, mt); !ok {
@@ -180,6 +317,9 @@ func (fr *Frame) mapRangeNext(x *ssa.Next, rng SV, mt *types.Map, st *State, g s
 	val := fc.define(fr.name(x)+"_v", tc.sortOf(mt.Elem()), app("select", app("select", fc.comp(st, mv, fc.comps[mv]), rng.t), k))
 	V := fc.comp(st, vk, vs)
 	fc.assume(g, implies(ok, and(not(eq(rng.t, nilPtr)), has, not(app("select", V, k)), tc.wf(k, mt.Key(), fc.watermark(st)), tc.wf(val, mt.Elem(), fc.watermark(st)))))
+	// heap closure of the ENTRY state (ground instance for the yielded key): if the ranged map existed at entry and held k
+	// then, the value it held then was allocated before entry (no cell of the entry heap points to a later allocation)
+	fr.mapEntryClosure(mt, rng.t, k, and(g, ok))
 	// an empty map yields no element
 	fc.assume(g, implies(eq(app("select", fc.comp(st, "ML", "(Array Ptr Int)"), rng.t), "0"), not(ok)))
 	// the iteration ends only when every present key has been produced
@@ -189,6 +329,46 @@ func (fr *Frame) mapRangeNext(x *ssa.Next, rng SV, mt *types.Map, st *State, g s
 	fc.assumes["trusted model: a map range yields every present key exactly once (no insertion of new keys in the loop: safe:maprange obligations)"] = true
 	fr.vals[x] = SV{typ: x.Type(), tuple: []SV{{t: ok, typ: boolT}, {t: k, typ: mt.Key()}, {t: val, typ: mt.Elem()}}}
 	return true
+}
+
+// mapEntryClosure assumes the ground instance, for map m and key k, of the heap closure of the ENTRY state: if m existed at
+// entry and held k then, the value it held then is a well-typed value of the entry heap (a pointer stored in a cell of the
+// entry heap points to an object allocated before entry, never to a later allocation). True in every execution.
+func (fr *Frame) mapEntryClosure(mt *types.Map, m, k, g string) {
+	fc := fr.fc
+	if !fc.usesFact("entryclosure") {
+		return
+	}
+	w0 := compInit("W")
+	mh, mv := fc.mapComps(mt)
+	v0 := app("select", app("select", compInit(mv), m), k)
+	wf := fc.tc.wf(v0, mt.Elem(), w0)
+	if wf == "true" {
+		return
+	}
+	fc.assume(g, implies(and(not(eq(m, nilPtr)), app("<", app("root", m), w0), app("select", app("select", compInit(mh), m), k)), wf))
+}
+
+// entryClosureAtLoad: the code loads a pointer-like value (pointer, slice, map, interface) through address a. Ground
+// instance of the heap closure of the ENTRY state for that address: if a was allocated before entry then the value the
+// ENTRY heap holds at a is a well-typed value of the entry heap (it points to an object allocated before entry). Lets an
+// invariant `x[i] == old(x[i])` separate the loaded pointer from objects allocated by the function itself.
+func (fr *Frame) entryClosureAtLoad(a string, t types.Type, g string) {
+	if !fr.fc.usesFact("entryclosure") {
+		return
+	}
+	switch types.Unalias(t).Underlying().(type) {
+	case *types.Pointer, *types.Slice, *types.Map, *types.Interface:
+	default:
+		return
+	}
+	fc := fr.fc
+	if isOpaqueStruct(t) || isBigInt(t) {
+		return
+	}
+	w0 := compInit("W")
+	v0 := fc.load(&State{heap: map[string]string{}}, a, t)
+	fc.assume(g, implies(and(app("<", app("root", a), w0), app(">=", app("root", a), "0")), fc.tc.wf(v0, t, w0)))
 }
 
 // mapRangeInsertCheck: a MapUpdate inside a map range loop must not add a new key to the ranged map.
@@ -482,4 +662,48 @@ func (eng *Engine) checkLocksetGuards(fc *FnCtx, fr *Frame, fn *ssa.Function, sp
 	fc.oblige(fr, "lockset", "exclusive", "true", b2s(exclusive), pos,
 		fmt.Sprintf("no other function of the package touches {%s} of this type except on an object it has just allocated (syntactic)%s", gl, note), fr.props())
 	fc.assumes["sync.Mutex provides mutual exclusion and a happens-before edge from Unlock to the next Lock (lockset obligations are syntactic; schedules are not explored)"] = true
+}
+
+// ---------- 5. append to a slice of flat structs ----------
+
+// appendStructElems models append(s, more...) for a slice whose element type is a struct of leaf fields (e.g.
+// crypto.aggregateSigner{index int; public *Key; point *Point}). Element j of a slice lives at Elem(arr, off+j) and its
+// field k in the cell Fld(Elem(arr, off+j), k) of the component of the field's type. The result window [0, newLen) holds the
+// old elements followed by the appended ones; every other cell is unchanged (when the append is in place the old elements
+// are the same cells, so the same formula covers both cases). Returns false when the element type is not a flat struct.
+func (fr *Frame) appendStructElems(s, more SV, hasMore bool, res, newLen string, st *State, et types.Type) bool {
+	fc := fr.fc
+	if !isStructT(et) {
+		return false
+	}
+	u := types.Unalias(et).Underlying().(*types.Struct)
+	for i := 0; i < u.NumFields(); i++ {
+		if !isLeaf(u.Field(i).Type()) {
+			return false
+		}
+	}
+	if hasMore && fc.tc.sortOf(more.typ) != "Slice" {
+		return false
+	}
+	for i := 0; i < u.NumFields(); i++ {
+		ft := u.Field(i).Type()
+		ck, cs := fc.cKey(ft)
+		prev := fc.comp(st, ck, cs)
+		h := fc.fresh("H_"+mangle(ck), cs)
+		fk := num(int64(fc.tc.fieldKey(et, i)))
+		e := "(fpar p)"
+		inWin := fmt.Sprintf("(and ((_ is Fld) p) (= (fk p) %s) ((_ is Elem) %s) (= (epar %s) %s) (<= %s (eix %s)) (< (eix %s) (+ %s %s)))",
+			fk, e, e, sarr(res), soff(res), e, e, soff(res), newLen)
+		rel := fmt.Sprintf("(- (eix %s) %s)", e, soff(res))
+		oldv := fmt.Sprintf("(select %s (Fld (Elem %s (+ %s %s)) %s))", prev, sarr(s.t), soff(s.t), rel, fk)
+		newv := oldv
+		if hasMore {
+			newv = fmt.Sprintf("(select %s (Fld (Elem %s (+ %s (- %s %s))) %s))", prev, sarr(more.t), soff(more.t), rel, slen(s.t), fk)
+		}
+		fc.emit(fmt.Sprintf("(assert (forall ((p Ptr)) (! (= (select %s p) (ite %s (ite (< %s %s) %s %s) (select %s p))) :pattern ((select %s p)))))",
+			h, inWin, rel, slen(s.t), oldv, newv, prev, h))
+		fc.noteWrite(ck)
+		st.heap[ck] = h
+	}
+	return true
 }
